@@ -1078,6 +1078,16 @@ func (ex *Exec) havocValue(st *State, t types.Type, old Value, name string) Valu
 	case *VOpaque:
 		return &VOpaque{T: o.T, ID: ex.fresh(name+".$opaque", SInt)}
 	}
+	if p, ok := old.(*VPtr); ok {
+		// a pointer inside a library structure (e.g. the internals of a net.UDPConn) that the verified code
+		// never dereferences: it keeps pointing to the same opaque object
+		if n, isNamed := p.T.(*types.Named); isNamed && n.Obj().Pkg() != nil && !ex.inModule(n.Obj().Pkg()) {
+			return p
+		}
+		if p.Obj == nil || !ex.pointsIntoModule(p.T) {
+			return p
+		}
+	}
 	ex.unsupported("cannot havoc a %T (variable %s assigned in a loop under invariant)", old, name)
 	return nil
 }
@@ -1133,4 +1143,12 @@ func (ex *Exec) assumeRowTyping(st *State, s *VSlice) {
 		i := Var("i!rt", SInt)
 		st.assume(Forall([]*Term{i}, rangeFact(lf.T, Select(Select(h, s.Ref), i))))
 	}
+}
+
+// pointsIntoModule: the pointee type is declared in the module under verification.
+func (ex *Exec) pointsIntoModule(t types.Type) bool {
+	if n, ok := t.(*types.Named); ok && n.Obj().Pkg() != nil {
+		return ex.inModule(n.Obj().Pkg())
+	}
+	return true
 }
